@@ -323,6 +323,12 @@ def gen_method(rng, nslots=None, misaligned=False, allow_new=True, max_tries=5, 
     ntry = rng.randrange(0, max_tries + 1)
     if n - first_real >= 2 and ntry:
         cuts = sorted(rng.sample(range(first_real, n + 1), min(2 * ntry, n + 1 - first_real)))
+        for q in range(2, len(cuts) - 1, 2):
+            # some try ranges start exactly where the previous one ends (dx/d8 would have merged them when they share the handlers; a
+            # hand-written or rewritten file keeps them apart: two try items, two leaders)
+            if rng.random() < 0.3:
+                cuts[q] = cuts[q - 1]
+        contiguous_share = rng.random() < 0.5
         share_key = 0
         earlier = []  # handler lists of ALL earlier tries: a later try may share any of them (H0, H1, H0 patterns, not only adjacent ones)
         for a, b in zip(cuts[0::2], cuts[1::2]):
@@ -336,7 +342,9 @@ def gen_method(rng, nslots=None, misaligned=False, allow_new=True, max_tries=5, 
             if nh == 0 and rng.random() < 0.3:
                 ca = 0  # catch-all handler at the very first instruction
             share = None
-            if earlier and rng.random() < 0.4:
+            if earlier and truth_tries and truth_tries[-1][1] + 1 == start * 2 and contiguous_share:
+                hs, ca, share = earlier[-1]          # contiguous with the previous try AND the same handler list
+            elif earlier and rng.random() < 0.4:
                 hs, ca, share = rng.choice(earlier)
             else:
                 share = share_key
